@@ -51,7 +51,20 @@ func (p *prober) walk(term string, t types.Type, depth int) {
 			return
 		}
 		p.add(term)
-	case *types.Pointer, *types.Map, *types.Chan, *types.Signature:
+	case *types.Pointer:
+		p.add(term)
+		// pointer to a struct of the verified packages: probe the fields of its target in
+		// the entry heap
+		if st, ok := u.Elem().Underlying().(*types.Struct); ok && isOttoType(u.Elem()) && depth < 2 {
+			for i := 0; i < st.NumFields(); i++ {
+				key, _ := e.fieldHeapKey(u.Elem(), i)
+				if _, used := e.R.heapDecl[key]; !used {
+					continue
+				}
+				p.walk(fmt.Sprintf("(select %s %s)", key, term), st.Field(i).Type(), depth+1)
+			}
+		}
+	case *types.Map, *types.Chan, *types.Signature:
 		p.add(term)
 	case *types.Struct:
 		si := e.R.structOf(t)
@@ -105,6 +118,7 @@ type builder struct {
 	// adapters used (pointer values that cannot be taken from the model)
 	adapted map[string]bool
 	pre     []string // statements to run before the inputs are built
+	imports map[string]bool
 }
 
 func (b *builder) typeStr(t types.Type) string {
@@ -198,6 +212,15 @@ func (b *builder) build(term string, t types.Type, depth int) (string, error) {
 		if v, _ := b.atom(fmt.Sprintf("((_ is I_nil) %s)", term)); v == "true" {
 			return "nil", nil
 		}
+		if u.NumMethods() > 0 {
+			// non-empty interface: only the error interface has a generic stand-in
+			if typeName(t) == "error" {
+				b.imports["errors"] = true
+				b.notes = append(b.notes, "non-nil error value replaced by errors.New (adapter)")
+				return `errors.New("verif")`, nil
+			}
+			return "", fmt.Errorf("value of interface type %s needs a replay adapter", tn)
+		}
 		for _, m := range e.R.ifaceOrder {
 			if v, _ := b.atom(fmt.Sprintf("((_ is I_%s) %s)", m, term)); v == "true" {
 				dt := e.R.ifaceTypes[m]
@@ -209,7 +232,32 @@ func (b *builder) build(term string, t types.Type, depth int) (string, error) {
 			}
 		}
 		return "", fmt.Errorf("dynamic type outside the modelled set")
-	case *types.Pointer, *types.Map, *types.Chan, *types.Signature:
+	case *types.Pointer:
+		v, _ := b.atom(term)
+		if v == "0" {
+			return "(" + tn + ")(nil)", nil
+		}
+		if l, err := b.adapter(t, tn); err == nil {
+			return l, nil
+		}
+		if st, ok := u.Elem().Underlying().(*types.Struct); ok && isOttoType(u.Elem()) && depth < 2 {
+			var fs []string
+			for i := 0; i < st.NumFields(); i++ {
+				key, _ := e.fieldHeapKey(u.Elem(), i)
+				if _, used := e.R.heapDecl[key]; !used {
+					continue // field never read by the query: zero value
+				}
+				l, err := b.build(fmt.Sprintf("(select %s %s)", key, term), st.Field(i).Type(), depth+1)
+				if err != nil {
+					return "", fmt.Errorf("field %s of *%s: %v", st.Field(i).Name(), b.typeStr(u.Elem()), err)
+				}
+				fs = append(fs, st.Field(i).Name()+": "+l)
+			}
+			b.notes = append(b.notes, "object behind "+tn+" rebuilt from the entry heap of the model (aliasing between pointers not reproduced)")
+			return "&" + b.typeStr(u.Elem()) + "{" + strings.Join(fs, ", ") + "}", nil
+		}
+		return b.adapter(t, tn)
+	case *types.Map, *types.Chan, *types.Signature:
 		v, _ := b.atom(term)
 		if v == "0" {
 			return "(" + tn + ")(nil)", nil
@@ -274,6 +322,15 @@ func (b *builder) adapter(t types.Type, tn string) (string, error) {
 	case "*otto.object":
 		b.need("vrt")
 		return "vrt.newObject()", nil
+	case "*ast.Comments":
+		b.imports["github.com/robertkrimen/otto/ast"] = true
+		return "ast.NewComments()", nil
+	case "*file.File":
+		b.imports["github.com/robertkrimen/otto/file"] = true
+		return `file.NewFile("", "", 1)`, nil
+	case "*bytes.Buffer":
+		b.imports["bytes"] = true
+		return "new(bytes.Buffer)", nil
 	}
 	return "", fmt.Errorf("reference value of type %s needs a replay adapter", tn)
 }
